@@ -86,6 +86,13 @@ impl<T: Bounded> BVH<T> {
         let ll = elements.len();
         if ll > max_num_elements {
             let (left, right) = BVH::partition_elements_by_centroid(elements);
+            // Elementos que no se pueden separar por centroide (p.e. centros coincidentes): un único nodo terminal
+            if left.is_empty() || right.is_empty() {
+                let mut all_elements = left;
+                all_elements.extend(right);
+                node_list.push(TreeElement(0, Leaf, L, None, Some(all_elements)));
+                return node_list;
+            }
             // Guardamos nodo inicial (da igual el lado)
             node_list.push(TreeElement(0, Node, L, None, None));
             // Nodos pendientes
@@ -101,6 +108,19 @@ impl<T: Bounded> BVH<T> {
                 if cll > max_num_elements {
                     // Completamos un nodo intermedio y dejamos pendientes sus ramas
                     let (left, right) = BVH::partition_elements_by_centroid(c_elems);
+                    // Elementos que no se pueden separar por centroide: nodo terminal con todos ellos
+                    if left.is_empty() || right.is_empty() {
+                        let mut all_elements = left;
+                        all_elements.extend(right);
+                        node_list.push(TreeElement(
+                            c_id,
+                            Leaf,
+                            c_side,
+                            c_maybe_parent_id,
+                            Some(all_elements),
+                        ));
+                        continue;
+                    }
                     node_list.push(TreeElement(c_id, Node, c_side, c_maybe_parent_id, None));
                     pending.push(TreeElement(id + 2, Node, R, Some(c_id), Some(right)));
                     pending.push(TreeElement(id + 1, Node, L, Some(c_id), Some(left)));
